@@ -2471,6 +2471,31 @@ func runR74(c *Ctx) {
 				return "the append at " + p.instrPos(t) + " is not guarded by a failed lookup of the appended string"
 			}
 		}
+		// built by a helper of the package: judged on what the helper returns in that position
+		if ex, ok := v.(*ssa.Extract); ok {
+			if call, ok := ex.Tuple.(*ssa.Call); ok {
+				if h := call.Call.StaticCallee(); h != nil && h.Pkg == fn.Pkg && h.Blocks != nil {
+					why := ""
+					eachInstr(h, func(in ssa.Instruction) {
+						if r, ok := in.(*ssa.Return); ok && why == "" && ex.Index < len(r.Results) {
+							why = classify(r.Results[ex.Index], h, seen)
+						}
+					})
+					return why
+				}
+			}
+		}
+		if call, ok := v.(*ssa.Call); ok {
+			if h := call.Call.StaticCallee(); h != nil && h.Pkg == fn.Pkg && h.Blocks != nil && h.Signature.Results().Len() == 1 {
+				why := ""
+				eachInstr(h, func(in ssa.Instruction) {
+					if r, ok := in.(*ssa.Return); ok && why == "" {
+						why = classify(r.Results[0], h, seen)
+					}
+				})
+				return why
+			}
+		}
 		return "the table is " + describe(v) + ", which is neither an existing table, the declared values nor a de-duplicated accumulation"
 	}
 	for _, fn := range p.FuncsIn(pkg) {
